@@ -1715,7 +1715,7 @@ def run(ctx):
     items += make_items('B', b_big, 0 if quick else 1, 400)
     items += make_items('C', c_cases, bound, 40)
     d_cases, e_cases = race_cases(quick), downloader_cases(quick)
-    items += make_items('D', d_cases, 1, 8)          # all interleavings (cost 0) x <= 1 timer deviation
+    items += make_items('D', d_cases, 1 if quick else 2, 8)   # all interleavings (cost 0) x <= 1 (thorough 2) timer deviations
     items += make_items('E', e_cases, 0, 8)          # all interleavings, the downloader's own timers run by default
     # light items first, simplest first, so that the violation kept per signature is the simplest one; the few
     # heavy (2 MiB) items run in a second wave
